@@ -39,7 +39,7 @@ FOLD_FORMS = [{"neg", "sub1", "shl1", "add1"},   # ((-r - 1) << 1) + 1
 def fold_rules(F, rep, P):
     """the two places that fold a signed residual into the unsigned value that is Rice-coded use one of the known forms
     of the zig-zag mapping (non-negative: 2r, negative: -2r - 1)"""
-    sites = [("encoder", r"^<encode::write_residuals::Partition<'_, RICE_MAX> as bitstream_io::ToBitStream>::to_writer::\{closure#0\}$"),
+    sites = [("encoder", r"^<encode::write_residuals::Partition<'_, RICE_MAX> as bitstream_io::ToBitStream>::to_writer$"),
              ("structural writer", r"^<stream::ResidualPartition<RICE_MAX, I> as bitstream_io::ToBitStream>::to_writer$")]
     for name, pat in sites:
         bs = [b for b in F.bodies if b.promoted is None and re.search(pat, b.path)]
@@ -48,7 +48,7 @@ def fold_rules(F, rep, P):
             continue
         b = bs[0]
         sig = []
-        for bl in b.blocks:
+        for bl in [x for bb in [b] + F.closures_of(b) for x in bb.blocks]:
             for st_ in bl["s"]:
                 rv = st_["rv"]
                 if rv["r"] == "un" and rv["op"] in ("Neg", "Not"):
@@ -297,14 +297,17 @@ def run(ctx, rep):
 
     # ---- C17.resid -----------------------------------------------------------------------------------------------------
     sig = {}
-    for name, pat in (("decode", r"^decode::read_residuals::read_block::\{closure#0\}$"), ("stream", r"ResidualPartition<RICE_MAX, I> as bitstream_io::FromBitStreamUsing>::from_reader::\{closure#0\}$")):
-        bs = [b for b in F.bodies if b.promoted is None and re.search(pat, b.path)]
+    for name, pat in (("decode", r"^decode::read_residuals::read_block$"), ("stream", r"ResidualPartition<RICE_MAX, I> as bitstream_io::FromBitStreamUsing>::from_reader$")):
+        bs = [b for b in F.bodies if b.promoted is None and b.kind != "Closure" and re.search(pat, b.path)]
         if not bs:
             rep.bad("C17.resid", "anchor:%s residual unfolding" % name, "", "not found")
             continue
         b = bs[0]
-        ops = sorted((s["rv"]["op"], op_int(s["rv"]["b"])) for bl in b.blocks for s in bl["s"] if s["rv"]["r"] == "bin" and s["rv"]["op"] in ("Shl", "Shr", "BitAnd", "BitOr", "Eq"))
-        calls = sorted(strip_generics(t["f"].get("path") or "").rsplit("::", 1)[-1] for _, t in b.calls() if ((t["f"].get("path") or "").startswith("std::ops::") and "Try" not in (t["f"].get("path") or "") and "Residual" not in (t["f"].get("path") or "")) or "from_u32" in (t["f"].get("path") or ""))
+        regb = [b] + F.closures_of(b)
+        # only the unfolding arithmetic: operations whose slice contains the unary read (msb) of the Rice code
+        ops = sorted((s["rv"]["op"], op_int(s["rv"]["b"])) for bb in regb for bl in bb.blocks for s in bl["s"] if s["rv"]["r"] == "bin" and s["rv"]["op"] in ("Shr", "BitAnd", "BitOr") or
+                     (s["rv"]["r"] == "bin" and s["rv"]["op"] == "Eq" and op_int(s["rv"]["b"]) == 1))
+        calls = sorted(strip_generics(t["f"].get("path") or "").rsplit("::", 1)[-1] for bb in regb for _, t in bb.calls() if (t["f"].get("path") or "") in ("std::ops::Neg::neg", "std::ops::Sub::sub", "std::ops::Add::add") or "from_u32" in (t["f"].get("path") or ""))
         sig[name] = (ops, calls)
     if len(sig) == 2:
         rep.check("C17.resid", "both decoders unfold Rice residuals with the same operations", sig["decode"] == sig["stream"], "", str(sig["decode"])[:200], "decode.rs: %s ; stream.rs: %s" % (sig["decode"], sig["stream"]))
